@@ -48,7 +48,7 @@ def on_result(ctx, sess, res, case):
 
 def plan(tier, seed):
     quick = tier == "quick"
-    return {"nshards": 16, "params": {"soft_s": 300 if quick else 1200, "nprograms": 10 if quick else 110, "ninputs": 4 if quick else 8}, "hard_timeout_s": 700 if quick else 3400}
+    return {"nshards": 16, "params": {"soft_s": 600 if quick else 1800, "nprograms": 16 if quick else 130, "ninputs": 4 if quick else 8}, "hard_timeout_s": 1200 if quick else 4000}
 
 
 def _templates(rng):
@@ -59,7 +59,7 @@ def _templates(rng):
 
 
 def shard(ctx):
-    run_cstream(ctx, knobs, on_result, ninputs=ctx.params["ninputs"], templates=_templates, template_prob=0.3)
+    run_cstream(ctx, knobs, on_result, ninputs=ctx.params["ninputs"], templates=_templates, template_prob=0.4)
 
 
 def finish(agg, tier):
